@@ -64,7 +64,7 @@ def _step(ref, costs, row, tok):
     return tuple(new)
 
 
-@lru_cache(maxsize=400000)
+@lru_cache(maxsize=100000)
 def _best(ref, costs, row, depth):
     """min over all strings s, |s| <= depth, over alphabet(ref)+FRESH, of d(ref, x+s) where row is x's row"""
     m = row[-1]
@@ -289,6 +289,7 @@ EOS_MODES = [(None, False), (0, False), (0, True)]  # (eos, include_eos); eos = 
 COSTS_QUICK = [(1.0, 1.0, 1.0), (1.0, 2.0, 3.0), (2.0, 1.0, 1.0), (1.0, 1.0, 2.5)]
 COSTS_MORE = [(0.5, 1.0, 1.0), (1.0, 3.0, 1.0), (2.0, 2.0, 1.0), (3.0, 3.0, 4.0), (2.0, 2.0, 2.0), (1.0, 0.25, 0.5)]
 GRID = [0.25, 0.5, 1.0, 1.5, 2.0, 3.0, 4.0]
+NRAND = 12000  # seeded random batches per clause in the thorough tier
 
 
 def _batches(R, H, A, size):
@@ -304,7 +305,7 @@ def _has_counted(hyp_row, eos, inc):
     return len(counted(hyp_row, eos, inc)) > 0
 
 
-def _exhaustive(L, A, costs_list, size, loss=False, mask=False):
+def _exhaustive(L, A, costs_list, size, loss=False, r0=True):
     k = 0
     for R in range(0, L + 1):
         for H in range(0, L + 1):
@@ -329,8 +330,8 @@ def _exhaustive(L, A, costs_list, size, loss=False, mask=False):
                                 for excl in (False, True):
                                     if excl and H == 0:
                                         continue  # the excluded combination
-                                    if mask and R == 0:
-                                        continue  # see above
+                                    if R == 0 and not r0:
+                                        continue  # R = 0 is exercised (and fails, KF-C03-1) under C03.oc.set_semantics only
                                     k += 1
                                     yield dict(base, exclude_last=excl, padding=(-100, -1, A + 4)[k % 3])
 
@@ -366,18 +367,29 @@ def cases_oc(ctx):
         yield from _exhaustive(5, 3, COSTS_QUICK[:2], 243)
         yield from _exhaustive(3, 4, COSTS_QUICK[1:3], 64)
         rng = random.Random(ctx.seed * 7919 + 1)
-        for _ in range(30000):
+        for _ in range(NRAND):
             yield _random_case(rng)
+
+
+INEXACT = [(1.1, 0.9, 0.9), (1.1, 0.7, 0.7), (0.9, 0.9, 1.1), (0.7, 1.1, 0.7)]
+# not representable in binary floating point, but every tie between table entries within the bound is structural (the same multiset of
+# operations, or sub == del / ins == sub used once each way): the smallest other relation, 9*1.1 = 11*0.9 resp. 7*1.1 = 11*0.7, needs more
+# operations than R + H <= 10 allows on one path pair. So the expected sets do not depend on whether the costs are read as decimals,
+# doubles or float32 values.
+
+
+def cases_inexact(ctx):
+    yield from _exhaustive(4 if ctx.quick else 5, 2, INEXACT, 64, r0=False)
 
 
 def cases_mask(ctx):
     if ctx.quick:
-        yield from _exhaustive(4, 3, COSTS_QUICK, 81, mask=True)
+        yield from _exhaustive(4, 3, COSTS_QUICK, 81, r0=False)
     else:
-        yield from _exhaustive(4, 3, COSTS_QUICK + COSTS_MORE, 81, mask=True)
-        yield from _exhaustive(5, 3, COSTS_QUICK[:2], 243, mask=True)
+        yield from _exhaustive(4, 3, COSTS_QUICK + COSTS_MORE, 81, r0=False)
+        yield from _exhaustive(5, 3, COSTS_QUICK[:2], 243, r0=False)
         rng = random.Random(ctx.seed * 7919 + 2)
-        for _ in range(30000):
+        for _ in range(NRAND):
             c = _random_case(rng)
             c.pop("module")
             yield c
@@ -389,13 +401,13 @@ def cases_loss(ctx):
     else:
         yield from _exhaustive(4, 3, COSTS_QUICK, 81, loss=True)
         rng = random.Random(ctx.seed * 7919 + 3)
-        for _ in range(30000):
+        for _ in range(NRAND):
             yield _random_case(rng, loss=True)
 
 
 # ----------------------------------------------------------------------------------------------
 
-CHECKERS = {"C03.mask.row_minima": check_mask, "C03.oc.set_semantics": check_oc, "C03.loss.formula": check_loss}
+CHECKERS = {"C03.mask.row_minima": check_mask, "C03.oc.set_semantics": check_oc, "C03.loss.formula": check_loss, "C03.oc.inexact_costs": check_oc}
 
 FINDINGS = [
     {"id": "KF-C03-1", "property": "C03", "clause": "C03.oc.set_semantics",
@@ -403,8 +415,22 @@ FINDINGS = [
              "the property asks for all-padding rows",
      "class": "ref.size(sequence dim) == 0 (R = 0), any hypothesis, any flags; _string_matching(return_mask=True) writes row_mask[0] of a (0, N) tensor",
      "witness": {"ref": [[]], "hyp": [[0]], "eos": None, "include_eos": False, "batch_first": False, "costs": [1.0, 1.0, 1.0], "exclude_last": False, "padding": -100}},
+    {"id": "KF-C03-2", "property": "C03", "clause": "C03.oc.inexact_costs",
+     "what": "optimal_completion drops (or adds) a target when the costs are not exactly representable: a run of i-k deletions is priced i*del - k*del in float32 "
+             "(del_mat = row.unsqueeze(1) - row), which is not (i-k)*del, so exact ties between a deletion and an equally priced substitution/insertion are broken "
+             "and the == against the row minimum misses them",
+     "class": "unequal cost triple in which some cost is not a multiple of 1/4 (e.g. del = sub = 0.9), reference and hypothesis such that the row minimum is tied "
+              "between the last reference position and an earlier one",
+     "witness": {"ref": [[0, 0, 0, 1]], "hyp": [[0, 0, 1]], "eos": None, "include_eos": False, "batch_first": False, "costs": [1.1, 0.9, 0.9], "exclude_last": False, "padding": -100}},
 ]
+
+
+def _dyadic(costs):
+    return all(float(c) * 4 == int(float(c) * 4) for c in costs)
+
+
 KNOWN_MATCH = {
+    "KF-C03-2": lambda case, msg: not _dyadic(case["costs"]) and len(set(case["costs"])) > 1 and "distance-preserving next tokens are" in msg,
     "KF-C03-1": lambda case, msg: len(case["ref"]) > 0 and all(len(r) == 0 for r in case["ref"]) and "IndexError" in msg and "dimension 0 with size 0" in msg,
 }
 
@@ -424,7 +450,7 @@ def run_bounded(ctx):
     ex = ("EXHAUSTIVE: every (ref, hyp) in {0,1,2}^R x {0,1,2}^H, R,H<=4 (R=4 forces a repeated reference token), in batches of <=81 pairs; "
           "eos in {none, 0 not counted, 0 counted} (0 is in the alphabet: ragged lengths, garbage after eos; eos only with R,H>=1); "
           "batch_first x exclude_last (not with H=0); costs (ins,del,sub) in %s" % (COSTS_QUICK if q else COSTS_QUICK + COSTS_MORE))
-    more = "" if q else ("; + exhaustive R,H<=5 alphabet 3 (2 cost triples) %s+ 30000 seeded random batches "
+    more = "" if q else ("; + exhaustive R,H<=5 alphabet 3 (2 cost triples) %s+ " + "%d seeded random batches " % NRAND +
                          "(alphabet<=5, R,H,N<=6, eos inside/outside the alphabet, costs from {.25,.5,1,1.5,2,3,4}^3, functional or module entry point)")
     if _wanted(ctx, "C03.mask.row_minima"):
         ctx.bounded("C03.mask.row_minima", check_mask, cases_mask(ctx), bound=ex + (more % "" if more else "") + "; R>=1 as tensor size (empty references through eos)",
@@ -439,17 +465,25 @@ def run_bounded(ctx):
         ctx.bounded("C03.loss.formula", check_loss, cases_loss(ctx),
                     bound=("EXHAUSTIVE: every (ref, hyp) in {0,1,2}^R x {0,1,2}^H, 1<=R,H<=%d with a counted hypothesis token, batches of <=%d; 3 eos modes x batch_first x reduction {none,sum,mean}; "
                            "costs %s; V in {3,4}; ignore_index in {-2,-100}; one seeded float64 logit tensor (3*randn) per case" % ((3, 27, COSTS_QUICK[:2]) if q else (4, 81, COSTS_QUICK)))
-                    + ("" if q else "; + 30000 seeded random batches (as above, float32 and float64 logits, functional or module entry point)"),
+                    + ("" if q else "; + %d seeded random batches (as above, float32 and float64 logits, functional or module entry point)" % NRAND),
                     text="hard OCD loss = mean over the brute-force target set of -log_softmax(logits)[t] per prefix (0 where empty); sum; mean = per-sequence average over prefixes with targets, then batch mean",
                     nontrivial=_repeats, budget_s=None if q else 400, chunk=8, functions=["_string.hard_optimal_completion_distillation_loss", "_string.optimal_completion"])
+    if _wanted(ctx, "C03.oc.inexact_costs"):
+        L = 4 if q else 5
+        ctx.bounded("C03.oc.inexact_costs", check_oc, cases_inexact(ctx),
+                    bound="EXHAUSTIVE: every (ref, hyp) in {0,1}^R x {0,1}^H, R,H<=%d, batches of <=64; 3 eos modes x batch_first x exclude_last; costs in %s "
+                          "(not binary-representable; all table ties within the bound are structural, so the oracle is the same for the decimal, double and float32 reading)" % (L, INEXACT),
+                    text="as C03.oc.set_semantics, for cost triples that are not exactly representable; oracle in exact rational arithmetic on the given doubles",
+                    nontrivial=_repeats, chunk=8, functions=["_string.optimal_completion", "_string._string_matching"])
     ctx.replay_known_witnesses()
     ctx.assume(
-        "costs are positive dyadic rationals (multiples of 1/4), so every float32 sum in the library's table is exact and ties are the ties of exact arithmetic",
+        "costs are positive dyadic rationals (multiples of 1/4), so every float32 sum in the library's table is exact and ties are the ties of exact arithmetic "
+        "(except in C03.oc.inexact_costs, which uses four non-representable triples whose ties are reading-independent within its bound)",
         "edit distance is the weighted Levenshtein recurrence (C01); the oracle's completions are bounded by |s| <= R+1 over ref's tokens plus one foreign token "
         "(tokens outside the reference are interchangeable)",
         "counted tokens of a sequence: up to the first eos, eos itself counted iff include_eos and present (C01's convention); eos set with a zero-size R or H dimension is left to C01.lens.empty_dim",
-        "loss compared in float64 with tolerance 1e-9*(1+|x|) (float32 logits: 2e-5*(1+|x|)); weight=None; 'mean' read as documented in DESIGN.md (per-sequence mean over prefixes with targets, then batch mean)",
+        "loss compared in float64 with tolerance 1e-9*(1+|x|) (float32 logits: 2e-5*(1+|x|)); weight=None (class weights and gradients are not in the property's wording); 'mean' read as documented in DESIGN.md (per-sequence mean over prefixes with targets, then batch mean)",
         "the order of the listed tokens is not constrained by the property and is not checked",
     )
-    ctx.not_applicable.append("C03: class-weighted loss (weight != None) and gradients are not part of the property's wording and are not checked; "
-                              "costs that are not exactly representable (e.g. 0.1) are outside the bounded space (float ties differ from real ties there)")
+    ctx.not_applicable.append("C03: cost triples whose ties depend on how an inexact cost is read (e.g. 0.1 + 0.2 against 0.3: a tie in decimals and in float32, "
+                              "not in doubles) are outside the bounded space: the property does not say which reading is meant; worker/thread schedules play no role (pure tensor functions)")
